@@ -383,7 +383,8 @@ func obsMP(s string, pat []string) map[string]any {
 		hp[i] = hl.Hx([]byte(p))
 		lp[i] = hl.Hx([]byte(strings.ToLower(p)))
 	}
-	_, reserved := d2ast.ReservedKeywords[s]
+	// the code lower-cases the name first and tests the lowered name against the reserved keywords
+	_, reserved := d2ast.ReservedKeywords[strings.ToLower(s)]
 	return map[string]any{"k": "mp",
 		"in":  map[string]any{"s": hl.Hx([]byte(s)), "pat": hp, "ls": hl.Hx([]byte(strings.ToLower(s))), "lpat": lp, "reserved": reserved},
 		"out": map[string]any{"r": got, "detail": oc}}
@@ -800,13 +801,15 @@ func run(c *hl.Ctx) error {
 	c.Emit(obsMP("Ⱥ", []string{"ⱥ", "*"}))
 	c.Emit(obsMP("aȺb", []string{"*", "ⱥ", "*"}))
 	c.Emit(obsMP("label", []string{"*"}))
+	c.Emit(obsMP("Label", []string{"*"}))
+	c.Emit(obsMP("LABEL", []string{"l", "*"}))
 	c.Emit(obsMP("abc", nil))
 	nmp := c.Pick(6000, 300000)
 	for i := 0; i < nmp; i++ {
 		s := genMPString(r, 5)
 		pat := genMPPattern(r, s)
 		if r.Intn(40) == 0 {
-			s = []string{"label", "shape", "style", "near"}[r.Intn(4)]
+			s = []string{"label", "shape", "style", "near", "Label", "SHAPE", "Near", "K", "İ"}[r.Intn(9)]
 		}
 		m := obsMP(s, pat)
 		c.Count("mp:" + m["out"].(map[string]any)["r"].(string))
